@@ -161,13 +161,15 @@ def content_family(chk):
         trees.append([('file', 'W.sol', 'w', k), ('dir', 'd', [('file', 'B.sol', 'b')]), ('file', 'A.sol', 'a')])
         trees.append([('dir', 'd', [('file', 'W.sol', 'w', k), ('file', 'B.sol', 'b')]), ('file', 'A.sol', 'a')])
     trees.append([('file', 'W1.sol', 'w1', 'blank'), ('file', 'W2.sol', 'w2', 'blank'), ('file', 'A.sol', 'a')])
+    for k in ('leading blank lines', 'leading blanks and tabs', 'trailing blank lines'):
+        trees.append([('file', 'P.sol', 'p', k), ('dir', 'd', [('file', 'Q.sol', 'q', k)])])
     for cat in dl.CATS:
         pats = [p for p, _ in dl.CATS[cat]['patterns']][:2]
         for ents in trees:
             for perm in itertools.permutations(range(len(ents))):
                 listing = {'root': ['root/e%d' % i for i in perm]}
                 ents2 = dl.rename_for_order(ents, 'root', listing, chk.rng, chk.native.dir)
-                tags = {f[2]: ([] if len(f) > 3 else [names[cat][p] for p in pats]) for f in all_files(ents2)}
+                tags = {f[2]: ([] if len(f) > 3 and f[3] in dl.SPECIAL_CONTENTS else [names[cat][p] for p in pats]) for f in all_files(ents2)}
                 native_check(chk, cat, ents2, pats, names[cat], '%s content family %r order %r' % (cat, [e_[3] if len(e_) > 3 else e_[0] for e_ in ents], perm), tags)
                 chk.ok()
     chk.sample({'content family': '%d trees x every listing order of the top directory x 3 categories: token-free eligible files (%s) next to files with findings' % (len(trees), ', '.join(kinds))})
